@@ -14,7 +14,8 @@ Failure keys. The class of the failing INPUT (computed by the oracle's own walk,
     bounded:C13:filter-exception | filter-not-subdocument | filter-not-restriction
     bounded:C13:chain-exception | chain-not-sequential
   any input: bounded:C13:fragment-mutates-input | filter-mutates-input | chain-mutates-old | patch-mutates-input
-  bounded:C13:patch-exception | patch-roundtrip, suffixed -array when an array present in both documents differs
+  patch, inputs where an array present in both documents differs: bounded:C13:patch-array (which of the two clauses fails
+  there depends on PYTHONHASHSEED: jsonpatch iterates sets of keys); other inputs: bounded:C13:patch-exception | patch-roundtrip
 """
 import copy
 import fnmatch
@@ -323,7 +324,7 @@ def check_fragment(old, frag, acl):
 
 
 def check_patch(old, new):
-    sfx = "-array" if arrays_differ(old, new) else ""
+    arr = arrays_differ(old, new)
     old0, new0 = copy.deepcopy(old), copy.deepcopy(new)
     out = []
     try:
@@ -333,9 +334,9 @@ def check_patch(old, new):
         patch_bytes = jsontools.format_json(patch).encode()
         got = json.loads(jsontools.apply_patch(json.dumps(old).encode(), patch_bytes))
     except Exception as e:  # pylint: disable=broad-except
-        return [("bounded:C13:patch-exception" + sfx, "make_patch/apply_patch raises", new0, repr(e))], True
+        return [("bounded:C13:patch-array" if arr else "bounded:C13:patch-exception", "make_patch/apply_patch raises", new0, repr(e))], True
     if not jeq(got, new0):
-        out.append(("bounded:C13:patch-roundtrip" + sfx, "apply_patch(old, make_patch(old, new)) != new (patch: %s)" % json.dumps(patch),
+        out.append(("bounded:C13:patch-array" if arr else "bounded:C13:patch-roundtrip", "apply_patch(old, make_patch(old, new)) != new (patch: %s)" % json.dumps(patch),
                     new0, got))
     if not jeq(old, old0) or not jeq(new, new0):
         out.append(("bounded:C13:patch-mutates-input", "make_patch mutates its input", dict(old=old0, new=new0), dict(old=old, new=new)))
@@ -430,14 +431,14 @@ def cases(tier, seed, part, nparts):
 
     # layer A: fragment, all shapes x all shapes x all pointer lists (strided)
     total = na * no * nn
-    for idx in _strided(total, 233 if quick else 31, part, nparts):
+    for idx in _strided(total, 401 if quick else 53, part, nparts):
         ai, rest = divmod(idx, no * nn)
         oi, fi = divmod(rest, nn)
         yield "A%x" % idx, dict(kind="fragment", old=olds[oi], fragment=news[fi], acl=acls[ai])
 
     # layer B: fragment, random documents with all three scalar values
     rnd = random.Random(1000003 * seed + 17)
-    n = 96000 if quick else 640000
+    n = 64000 if quick else 400000
     for j in range(n):
         c = dict(kind="fragment", old=random_doc(rnd), fragment=random_doc(rnd), acl=rnd.choice(acls))
         if j % nparts == part:
@@ -445,7 +446,7 @@ def cases(tier, seed, part, nparts):
 
     # layer C: patch, shapes x shapes, new document with other / with the same scalar values
     total = 2 * no * nn
-    for idx in _strided(total, 7 if quick else 1, part, nparts):
+    for idx in _strided(total, 11 if quick else 1, part, nparts):
         var, rest = divmod(idx, no * nn)
         oi, ni = divmod(rest, nn)
         yield "C%x" % idx, dict(kind="patch", old=olds[oi], new=(news if var == 0 else olds)[ni])
@@ -461,7 +462,7 @@ def cases(tier, seed, part, nparts):
             yield "D%x" % idx, dict(kind="patch", old={"T": {"b*": {"p": 1}}, "L": arrs[i], "s": "x"},
                                     new={"T": {"a|1": {"p": 1}}, "L": arrs[j], "m~n": {"p": None}})
     # layer E: patch, random documents
-    n = 32000 if quick else 320000
+    n = 16000 if quick else 200000
     for j in range(n):
         c = dict(kind="patch", old=random_doc(rnd), new=random_doc(rnd))
         if j % nparts == part:
@@ -469,17 +470,17 @@ def cases(tier, seed, part, nparts):
 
     # layer F: filter, all shapes x all pointer lists; plus random
     total = na * no
-    for idx in _strided(total, 3 if quick else 1, part, nparts):
+    for idx in _strided(total, 5 if quick else 1, part, nparts):
         ai, oi = divmod(idx, no)
         yield "F%x" % idx, dict(kind="filter", doc=olds[oi], filters=acls[ai])
-    n = 16000 if quick else 160000
+    n = 8000 if quick else 160000
     for j in range(n):
         c = dict(kind="filter", doc=random_doc(rnd), filters=rnd.choice(acls))
         if j % nparts == part:
             yield None, c
 
     # layer G: chains of 2..3 generators over one or two files
-    n = 48000 if quick else 480000
+    n = 32000 if quick else 300000
     for j in range(n):
         k = rnd.randint(2, 3)
         two = rnd.random() < 0.3
@@ -530,8 +531,8 @@ def run(tier="quick", seed=0, part=0, nparts=1):
              "selected inside arrays of different length) are skipped (%d in this part). non-trivial: fragment = something "
              "selected and result differs from both old and fragment; patch = old != new, both non-empty; filter = selected, "
              "proper sub-document; chain = >= 2 generators with >= 2 selections. distinct by enumeration index / content hash"
-             % (len(acl_lists()), len(PATTERNS), 233 if tier == "quick" else 31, 7 if tier == "quick" else 1,
-                3 if tier == "quick" else 1, skipped),
+             % (len(acl_lists()), len(PATTERNS), 401 if tier == "quick" else 53, 11 if tier == "quick" else 1,
+                5 if tier == "quick" else 1, skipped),
         bound="objects 3 deep, arrays <= 3, 3 scalars, <= 2 glob patterns, <= 3 chained generators")
 
 
